@@ -133,6 +133,14 @@ pub fn run_fault(args: &Args) {
         while points_of(op["op"].as_str().unwrap()).is_empty() {
             op = rnd_write(&mut r, &keys, now);
         }
+        // one case in eight interrupts a store of a long version list deep inside its insert loop (a write path that
+        // splits long lists into several transactions would leave a partial list behind)
+        let long = case % 8 == 3;
+        if long {
+            let (reg, name) = keys[r.below(keys.len())].clone();
+            let vs: Vec<String> = (0..1030).map(|i| format!("{}.{}.{}", i / 100, (i / 10) % 10, i % 10)).collect();
+            op = json!({"op": "store", "reg": reg.as_str(), "name": name, "vs": vs, "now": now});
+        }
         // before / after on a reference file
         let dir = tempfile::TempDir::new().unwrap();
         let ref_path = dir.path().join("ref.db");
@@ -142,7 +150,8 @@ pub fn run_fault(args: &Args) {
         let ok_ret = apply_op(&c, &op);
         let after = raw_tables(&ref_path);
         drop(c);
-        for (k, (f, p, nth)) in points_of(op["op"].as_str().unwrap()).into_iter().enumerate() {
+        let pts = if long { vec![("replace_versions", 2, 515), ("replace_versions", 2, 1028), ("replace_versions", 3, 0)] } else { points_of(op["op"].as_str().unwrap()) };
+        for (k, (f, p, nth)) in pts.into_iter().enumerate() {
             // (1) injected database error
             let path = dir.path().join(format!("err{k}.db"));
             verif_hooks::set_point_handler(None);
